@@ -30,7 +30,7 @@ READS = ["*.read", "*.read_ctx", "*.contains", "*.iter", "*.get", "*.keys", "*.v
          "*.clock", "*.position", "*.num_nodes", "*.num_orphans", "*.node", "*.children", "*.parents"]
 
 
-def P(types, footprint, quick=400, thorough=20000, streams=("structured", "malformed"), all_inputs=False, extra_tb=(), extra_as=(), undischarged=()):
+def P(types, footprint, quick=1000, thorough=20000, streams=("structured", "malformed"), all_inputs=False, extra_tb=(), extra_as=(), undischarged=()):
     return dict(types=list(types), streams=list(streams), all_inputs=all_inputs, footprint=list(footprint),
                 quick_cases=quick, thorough_cases=thorough, trusted_base=TB_COMMON + list(extra_tb),
                 assumptions=AS_COMMON + list(extra_as), undischarged=list(undischarged))
@@ -40,26 +40,26 @@ CONV_FP = ["*.apply", "*.merge"] + READS + API_GEN
 MAP_AS = ["Map (any nesting) violates this property on the unchanged tree: known findings T1, T2, T3 (KNOWN_FINDINGS.json); for Map the check relies on the correspondence of the faithful model, the refutation witnesses and the monitors' known-finding classes"]
 
 PROPS = {
-    "C01": P(ALL_REPL, CONV_FP, quick=200, streams=("structured",),
+    "C01": P(ALL_REPL, CONV_FP, quick=500, streams=("structured",),
              extra_as=["ops generated through the API, each replica editing through its own actor; causal delivery (duplicates allowed)"] + MAP_AS),
-    "C02": P([t for t in ALL_REPL if t != "list"], CONV_FP + ["*.reset"], quick=200, streams=("structured",),
+    "C02": P([t for t in ALL_REPL if t != "list"], CONV_FP + ["*.reset"], quick=500, streams=("structured",),
              extra_as=["states reachable by replicas with distinct actors; LWWReg with unique markers"] + MAP_AS),
-    "C03": P([t for t in ALL_REPL if t not in ("list", "vclock")], CONV_FP + ["*.reset"], quick=200, streams=("structured",),
+    "C03": P([t for t in ALL_REPL if t not in ("list", "vclock")], CONV_FP + ["*.reset"], quick=500, streams=("structured",),
              extra_as=["knowledge sets closed under per-actor order"] + MAP_AS),
-    "C08": P(["orswot", "mvreg", "mapmv", "mapor", "mapmm", "gcounter", "pncounter", "gset", "glist", "merkle", "list"], CONV_FP + ["*.reset"], quick=200, streams=("structured",),
+    "C08": P(["orswot", "mvreg", "mapmv", "mapor", "mapmm", "gcounter", "pncounter", "gset", "glist", "merkle", "list"], CONV_FP + ["*.reset"], quick=500, streams=("structured",),
              extra_as=["each actor's ops delivered in issue order, otherwise arbitrary"] + MAP_AS),
-    "C09": P(ALL_REPL, CONV_FP + ["*.reset"], quick=200, streams=("structured",), extra_as=MAP_AS),
-    "C16": P(["vclock", "orswot", "list", "merkle", "lww", "mapmv", "mapor", "mapmm"], ["*.validate_op", "*.apply"] + API_GEN, quick=300, streams=("structured",),
+    "C09": P(ALL_REPL, CONV_FP + ["*.reset"], quick=500, streams=("structured",), extra_as=MAP_AS),
+    "C16": P(["vclock", "orswot", "list", "merkle", "lww", "mapmv", "mapor", "mapmm"], ["*.validate_op", "*.apply"] + API_GEN, quick=600, streams=("structured",),
              extra_as=["Map::validate_op violates this property on the unchanged tree: known finding K1"]),
-    "C17": P(["orswot", "lww", "mapmv", "mapor", "mapmm"], ["*.validate_merge", "*.apply", "*.merge"] + API_GEN, quick=300, streams=("structured", "malformed"),
+    "C17": P(["orswot", "lww", "mapmv", "mapor", "mapmm"], ["*.validate_merge", "*.apply", "*.merge"] + API_GEN, quick=600, streams=("structured", "malformed"),
              extra_as=["Orswot::validate_merge rejects correct use of add_all: known finding K2"]),
-    "C20": P(ALL_REPL, CONV_FP + ["*.reset", "mvreg.eq"], quick=200, streams=("structured",), extra_as=MAP_AS),
+    "C20": P(ALL_REPL, CONV_FP + ["*.reset", "mvreg.eq"], quick=500, streams=("structured",), extra_as=MAP_AS),
     "C04": P(["orswot"], ["orswot.apply", "orswot.merge", "orswot.validate_op"] + ["orswot." + r[2:] for r in READS] + ["orswot.add", "orswot.add_all", "orswot.rm", "orswot.rm_all", "ctx.*"],
              extra_as=["each actor's adds are delivered in issue order (the documented contract); removes in any order",
                        "ops are generated through the public API from reads of the generating replica"]),
     "C06": P(["mvreg"], ["mvreg.apply", "mvreg.merge", "mvreg.read", "mvreg.read_ctx", "mvreg.write", "ctx.*"],
              extra_as=["writes are generated through the API with the context of a read; no delivery-order assumption"]),
-    "C10": P(["vclock"], ["vclock.*", "dot.*"], quick=600, all_inputs=True,
+    "C10": P(["vclock"], ["vclock.*", "dot.*"], quick=1000, all_inputs=True,
              extra_as=["clocks are well-formed (no stored zero): proved to be preserved by every API call; a stored zero is only constructible through the public field"]),
     "C11": P(["gcounter", "pncounter", "gset", "maxreg", "minreg", "lww"],
              ["gcounter.apply", "gcounter.merge", "gcounter.inc", "gcounter.inc_many", "gcounter.read",
